@@ -791,30 +791,33 @@ func R08(group string) Rule {
 					}
 				}
 			}
+			gcScope := P.Scope(fn, func(f *ssa.Function) bool { return core.PkgPathOf(f) != core.PkgBttest })
 			for _, field := range []string{"lastReadNanos", "lastWriteNanos"} {
 				var qIf *ssa.If
-				for _, b := range fn.Blocks {
-					ifi, ok := b.Instrs[len(b.Instrs)-1].(*ssa.If)
-					if !ok {
-						continue
-					}
-					bin, ok := ifi.Cond.(*ssa.BinOp)
-					if !ok || bin.Op != token.LSS {
-						continue
-					}
-					sub, ok := core.Resolve(bin.X).(*ssa.BinOp)
-					if !ok || sub.Op != token.SUB {
-						continue
-					}
-					if k, isK := core.ConstInt(bin.Y); !isK || k <= 0 {
-						continue
-					}
-					// sub.Y = atomic.LoadInt64(&t.<field>)
-					if call, ok := core.Resolve(sub.Y).(*ssa.Call); ok {
-						if sc := call.Call.StaticCallee(); sc != nil && sc.Name() == "LoadInt64" {
-							if fa, ok := call.Call.Args[0].(*ssa.FieldAddr); ok {
-								if _, f, _ := core.FieldName(fa); f == field {
-									qIf = ifi
+				for _, sf := range gcScope {
+					for _, b := range sf.Blocks {
+						ifi, ok := b.Instrs[len(b.Instrs)-1].(*ssa.If)
+						if !ok {
+							continue
+						}
+						bin, ok := ifi.Cond.(*ssa.BinOp)
+						if !ok || bin.Op != token.LSS {
+							continue
+						}
+						sub, ok := core.Resolve(bin.X).(*ssa.BinOp)
+						if !ok || sub.Op != token.SUB {
+							continue
+						}
+						if k, isK := core.ConstInt(bin.Y); !isK || k <= 0 {
+							continue
+						}
+						// sub.Y = atomic.LoadInt64(&t.<field>)
+						if call, ok := core.Resolve(sub.Y).(*ssa.Call); ok {
+							if sc := call.Call.StaticCallee(); sc != nil && sc.Name() == "LoadInt64" {
+								if fa, ok := call.Call.Args[0].(*ssa.FieldAddr); ok {
+									if _, f, _ := core.FieldName(fa); f == field {
+										qIf = ifi
+									}
 								}
 							}
 						}
@@ -825,12 +828,49 @@ func R08(group string) Rule {
 					c.Bad("R08", construct, fn.Pos(), "no `now - %s < quiescence` test found before the table lock is taken", field)
 					continue
 				}
-				cut := []cfgEdge{{qIf.Block(), qIf.Block().Succs[1]}}
-				if forceIf != nil {
-					cut = append(cut, cfgEdge{forceIf.Block(), forceIf.Block().Succs[forceTrueIdx]})
+				ok := false
+				if qIf.Parent() == fn {
+					cut := []cfgEdge{{qIf.Block(), qIf.Block().Succs[1]}}
+					if forceIf != nil {
+						cut = append(cut, cfgEdge{forceIf.Block(), forceIf.Block().Succs[forceTrueIdx]})
+					}
+					recent := core.ReachableFrom(qIf.Block().Succs[0], true)
+					ok = !reachableWithoutEdges(fn, lock.Block(), cut) && !recent[lock.Block()]
+				} else {
+					// the test lives in a predicate helper ("is the table quiescent?"): the helper answers
+					// true only through the 'not recently used' edge, and gc takes the lock only on the
+					// helper's true edge (or when forced)
+					h := qIf.Parent()
+					helperOK := isBoolType(h.Signature.Results().At(0).Type()) && h.Signature.Results().Len() == 1
+					if helperOK {
+						for _, r := range returnsIn(h) {
+							if bv, isB := core.ConstBool(r.Results[0]); isB && !bv {
+								continue // answers "not quiescent"
+							}
+							if reachableWithoutEdges(h, r.Block(), []cfgEdge{{qIf.Block(), qIf.Block().Succs[1]}}) {
+								helperOK = false
+							}
+						}
+					}
+					var cut []cfgEdge
+					for _, b := range fn.Blocks {
+						ifi, isIf := b.Instrs[len(b.Instrs)-1].(*ssa.If)
+						if !isIf {
+							continue
+						}
+						cond, trueIdx := ifi.Cond, 0
+						if u, isNot := cond.(*ssa.UnOp); isNot && u.Op == token.NOT {
+							cond, trueIdx = u.X, 1
+						}
+						if call, isCall := core.Resolve(cond).(*ssa.Call); isCall && call.Call.StaticCallee() == h {
+							cut = append(cut, cfgEdge{b, b.Succs[trueIdx]})
+						}
+					}
+					if forceIf != nil {
+						cut = append(cut, cfgEdge{forceIf.Block(), forceIf.Block().Succs[forceTrueIdx]})
+					}
+					ok = helperOK && len(cut) > 0 && !reachableWithoutEdges(fn, lock.Block(), cut)
 				}
-				recent := core.ReachableFrom(qIf.Block().Succs[0], true)
-				ok := !reachableWithoutEdges(fn, lock.Block(), cut) && !recent[lock.Block()]
 				c.Check(ok, "R08", construct, qIf.Pos(),
 					"unless forced, the table lock is only reachable through the 'not recently used' edge of the "+field+" test",
 					"a background pass can take the table lock although "+field+" shows recent activity")
